@@ -389,8 +389,10 @@ def print_arg(rng, arg, in_param=False):
     out += "../" * ups
     if not parts:
         if ups:
-            return None
+            return out + "this"               # the enclosing context itself: {{../this}}
         return "this"
+    if ups and rng.chance(0.25):
+        out += rng.pick(["this.", "this/"])   # {{../this.name}}: `this` after '../' is still the (enclosing) context
     if ups == 0 and not arg.get("root"):
         if arg.get("this") or parts[0][0].isdigit() or parts[0][0] == "-" or parts[0] in ("true", "false", "null") \
                 or (in_param and parts[0][0] == "["):
